@@ -10,11 +10,13 @@ Tables extracted from the repo on every run: Pywbem/Generated/CimTypes.lean, Pyw
 import Proofs.Lemmas.CimTypes
 import Proofs.Lemmas.CimUnpack
 import Proofs.Lemmas.TypedElems
+import Proofs.Lemmas.AtomicXml
+import Pywbem.Model.Utf8
 import Proofs.Lemmas.DateTime
 import Proofs.Lemmas.DateTimeWF
 
 namespace C06
-open Pywbem.Proto Pywbem.Model.CimTypes Pywbem.Model.DateTime Pywbem.Model.CimValue Pywbem.Model.TypedElems
+open Pywbem.Proto Pywbem.Model.CimTypes Pywbem.Model.DateTime Pywbem.Model.CimValue Pywbem.Model.TypedElems Pywbem.Model.AtomicXml
 open Proofs.CimTypes Proofs.DateTime
 
 /-! ## (1) integer types -/
@@ -443,5 +445,148 @@ example :
        .updateExisting [(1, .sc (.int (-128))), (0, .sc (.int 300)), (1, .sc (.int 7))],
        .propValue 7 (.sc (.int 1))]).1.props.map (fun p => (p.1, p.2.value))) =
       [(0, .sc (.cimInt .uint8 5)), (1, .sc (.cimInt .sint8 (-128)))] := by decide
+
+/-! ## (6) atomic values on the CIM-XML wire: atomic_to_cim_xml and unpack_single_value (Model/AtomicXml.lean) -/
+
+/-- int(str(v)) == v in the model of CPython int(): the decimal text of any integer (up to the 4300-digit limit) is
+    read back as that integer -/
+theorem C06_int_decimal_text_roundtrip (v : Int) (hlen : (natDigits v.natAbs).length ≤ 4300) :
+    intOfStr (intStr v) 10 = .ok v :=
+  intOfStr_intStr v hlen
+
+/-- **CIM integers print/parse losslessly**: for every integer type and every value in its range, the text
+    atomic_to_cim_xml writes (CIMInt.__str__) is read back by unpack_single_value as the same value of the same type —
+    independently of the float codec (`pf` arbitrary). -/
+theorem C06_atomic_roundtrip_int (fmt17 fmt11 : Nat → List Char) (utf8 : List Nat → Option (List Char)) (pf : Option Nat)
+    (t : IntTy) (v : Int) (h1 : t.specLo ≤ v) (h2 : v ≤ t.specHi) :
+    ∃ txt, atomicToCimXml fmt17 fmt11 utf8 (.cimInt t v) = .ok (some txt) ∧
+      unpackSingleValue pf (some txt) (.num (.int t)) = .ok (.cimInt t v) := by
+  refine ⟨intStr v, rfl, ?_⟩
+  rw [← (limits_spec t).1] at h1; rw [← (limits_spec t).2] at h2
+  exact unpackNumeric_intStr pf t v h1 h2
+
+example : atomicToCimXml (fun _ => []) (fun _ => []) (fun _ => none) (.cimInt .sint8 (-128)) =
+    .ok (some ['-', '1', '2', '8']) := by
+  simp [atomicToCimXml, intStr, natDigits_eq, digitChar]
+
+/-- booleans: TRUE / FALSE and back -/
+theorem C06_atomic_roundtrip_boolean (fmt17 fmt11 : Nat → List Char) (utf8 : List Nat → Option (List Char)) (pf : Option Nat)
+    (b : Bool) :
+    ∃ txt, atomicToCimXml fmt17 fmt11 utf8 (.bool b) = .ok (some txt) ∧
+      unpackSingleValue pf (some txt) .boolean = .ok (.bool b) := by
+  have hf : unpackBoolean "FALSE".toList = .ok (.bool false) := by decide
+  have ht : unpackBoolean "TRUE".toList = .ok (.bool true) := by decide
+  cases b
+  · exact ⟨"FALSE".toList, rfl, hf⟩
+  · exact ⟨"TRUE".toList, rfl, ht⟩
+
+/-- strings and (single UCS-2 character) char16 values are written and read unchanged -/
+theorem C06_atomic_roundtrip_string (fmt17 fmt11 : Nat → List Char) (utf8 : List Nat → Option (List Char)) (pf : Option Nat)
+    (s : List Char) (c : Char) (hc : c.toNat ≤ 0xFFFF) :
+    (atomicToCimXml fmt17 fmt11 utf8 (.str s) = .ok (some s) ∧ unpackSingleValue pf (some s) .string = .ok (.str s)) ∧
+    (atomicToCimXml fmt17 fmt11 utf8 (.char16 [c]) = .ok (some [c]) ∧
+      unpackSingleValue pf (some [c]) .char16 = .ok (.char16 [c])) := by
+  refine ⟨⟨rfl, rfl⟩, rfl, ?_⟩
+  have : ¬ c.toNat > 0xFFFF := by omega
+  simp [unpackSingleValue, unpackChar16, this]
+
+/-- **CIMDateTime values print/parse losslessly on the wire**: for every constructible, expressible object the text
+    atomic_to_cim_xml writes is read back by unpack_single_value as the identical object state -/
+theorem C06_atomic_roundtrip_datetime (fmt17 fmt11 : Nat → List Char) (utf8 : List Nat → Option (List Char)) (pf : Option Nat)
+    (x : DT) (hw : WF x = true) (he : Expressible x = true) :
+    ∃ txt, atomicToCimXml fmt17 fmt11 utf8 (.cimDT x) = .ok (some txt) ∧ txt.length = 25 ∧
+      unpackSingleValue pf (some txt) .datetime = .ok (.cimDT x) := by
+  obtain ⟨s, h1, h2, h3⟩ := C06_dt_roundtrip x hw he
+  refine ⟨s, by simp [atomicToCimXml, h1, Except.map], h2, ?_⟩
+  simp [unpackSingleValue, unpackDatetime, construct, h3]
+
+/-- reals on the wire through atomic_to_cim_xml / unpack_single_value, under the RealCodec hypotheses (fmt17 := R.fmt,
+    pf := what R.parse says about the text) -/
+theorem C06_atomic_roundtrip_real64 (R : RealCodec) (fmt11 : Nat → List Char) (utf8 : List Nat → Option (List Char))
+    (x : Nat) (hx : R.finite x = true) :
+    ∃ txt, atomicToCimXml R.fmt fmt11 utf8 (.real64 x) = .ok (some txt) ∧
+      unpackSingleValue (R.parse txt) (some txt) (.num .real64) = .ok (.real64 x) :=
+  ⟨fixup (R.fmt x), rfl, C06_real_xml_roundtrip R x hx⟩
+
+/-- atomic_to_cim_xml raises only TypeError (not an atomic value: timedelta, CIM objects, …) or ValueError (undecodable
+    bytes, a datetime whose offset Python cannot print) -/
+theorem C06_atomic_to_cim_xml_errors (fmt17 fmt11 : Nat → List Char) (utf8 : List Nat → Option (List Char)) (v : Sc)
+    (x : PyExc) (h : atomicToCimXml fmt17 fmt11 utf8 v = .error x) : x = .typeError ∨ x = .valueError := by
+  cases v <;> simp only [atomicToCimXml] at h
+  all_goals first
+    | (simp at h; done)
+    | (simp at h; simp [← h]; done)
+    | (split at h <;> simp at h; simp [← h]; done)
+    | skip
+  · -- CIMDateTime: only str() can fail
+    rename_i d
+    cases hs : toStr d with
+    | ok s => simp [hs, Except.map] at h
+    | error e =>
+      simp [hs, Except.map] at h; subst h
+      cases d <;> simp [toStr] at hs
+      rename_i y mo dd hh mi ss us off p
+      cases hm : minutesFromUtc (.ts y mo dd hh mi ss us off p) with
+      | ok o => simp [hm, bind, Except.bind] at hs
+      | error e2 =>
+        simp [hm, bind, Except.bind] at hs; subst hs
+        simp [minutesFromUtc] at hm
+        split at hm <;> simp at hm
+        exact Or.inr hm.symm
+  · rename_i y mo dd hh mi ss us off
+    simp only [construct, bind, Except.bind] at h
+    cases hm : minutesFromUtc (.ts y mo dd hh mi ss us (off.getD 0) none) with
+    | ok o => simp [toStr, hm, bind, Except.bind, Except.map] at h
+    | error e2 =>
+      simp [toStr, hm, bind, Except.bind, Except.map] at h; subst h
+      simp [minutesFromUtc] at hm
+      split at hm <;> simp at hm
+      exact Or.inr hm.symm
+
+/-! ## (7) CIMDateTime.__eq__ (Model/DateTime.lean: dtEq, instants via days-from-civil) -/
+
+/-- **"CIMDateTime(str(x)) equals x" with Python's own `==`**: for every well-formed expressible x the re-parsed object
+    compares equal under the model of CIMDateTime.__eq__ (aware datetimes compare as instants) — in addition to being
+    the identical state (`C06_dt_roundtrip`) -/
+theorem C06_dt_roundtrip_python_eq (x : DT) (hw : WF x = true) (he : Expressible x = true) :
+    ∃ s y, toStr x = .ok s ∧ parse s = .ok y ∧ dtEq y x = .ok true := by
+  obtain ⟨s, h1, _, h3⟩ := C06_dt_roundtrip x hw he
+  refine ⟨s, x, h1, h3, ?_⟩
+  cases x with
+  | ts y mo d h mi sec us off p =>
+    simp [Expressible] at he
+    have : utcoffsetOk off = true := by simp [utcoffsetOk]; omega
+    simp [dtEq, this]
+  | iv days secs us p => simp [dtEq]
+
+/-- `==` is decided by the instant alone: equal instants of two timestamps compare equal whatever their offsets and
+    precisions are (so `==` alone would not notice a lost offset or precision — which is why the property and
+    `C06_dt_roundtrip` name kind, offset and precision separately) -/
+theorem C06_dt_eq_is_instant_equality (a b : DT) (ha : a.isInterval = false) (hb : b.isInterval = false)
+    (r : Bool) (h : dtEq a b = .ok r) : r = (instantUs a == instantUs b) := by
+  cases a <;> cases b <;> simp [DT.isInterval] at ha hb
+  simp only [dtEq] at h
+  split at h <;> simp at h
+  exact h.symm
+
+example : dtEq (.ts 2020 2 29 12 0 0 0 60 none) (.ts 2020 2 29 11 0 0 0 0 (some 15)) = .ok true := by decide
+example : dtEq (.ts 2020 2 29 12 0 0 0 0 none) (.iv 0 0 0 none) = .ok false := by decide
+example : daysFromCivil 1970 1 1 = 0 ∧ daysFromCivil 2000 3 1 = 11017 ∧ daysFromCivil 1 1 1 = -719162 := by decide
+
+/-! ## (8) bytes given for string-typed values: the concrete model of `bytes.decode('utf-8')` (Model/Utf8.lean) -/
+
+/-- ASCII byte strings decode to the same characters (so `cimvalue(b'abc', 'string') == 'abc'` in the model without any
+    parameter) -/
+theorem C06_utf8_ascii (l : List Nat) (h : ∀ b ∈ l, b < 128) :
+    Pywbem.Model.Utf8.utf8Decode l = some (l.map Char.ofNat) := by
+  induction l with
+  | nil => simp [Pywbem.Model.Utf8.utf8Decode]
+  | cons b r ih =>
+    have hb := h b (by simp)
+    have := ih (fun b' hb' => h b' (by simp [hb']))
+    unfold Pywbem.Model.Utf8.utf8Decode; simp [hb, this]
+
+example : Pywbem.Model.Utf8.utf8Decode [0xE2, 0x82, 0xAC] = some ['€'] ∧ Pywbem.Model.Utf8.utf8Decode [0xC0, 0x80] = none ∧
+    Pywbem.Model.Utf8.utf8Decode [0xED, 0xA0, 0x80] = none := by decide
 
 end C06
